@@ -62,7 +62,7 @@ structure Env where
   /-- order in which the i-th map iteration visits its keys: a permutation selector -/
   mapOrder : Nat → Nat
   /-- engine answers collected so far (query ↦ answer) -/
-  oracle : List (Bytes × Bytes)
+  oracle : Bytes → Option Bytes
 
 inductive Res (α : Type)
   | ok (a : α) (s : St)
